@@ -333,7 +333,7 @@ func Spec() *mon.Spec {
 		ID:            "C36",
 		SpinViolation: true,
 		Level:         "exploration",
-		Rule: "Inputs: every CommonMark spec example, the package's supplemental formatter cases and the checked-in fuzz corpus at widths {0,1,2,5,20,51,80,random,corpus width}; grammar-generated documents, inline paragraphs and token soups (internal/gen/markdown.go) at random widths; 1-4 byte-level mutations of the seeds. " +
+		Rule: "Inputs: every CommonMark spec example, the package's supplemental formatter cases and the checked-in fuzz corpus at widths {0,1,2,5,20,51,80,random,corpus width}; grammar-generated documents, inline paragraphs and token soups (internal/gen/markdown.go) at random widths; 1-4 byte-level mutations of the seeds; targeted documents: links/images whose titles are drawn from both quote kinds, parentheses, backslashes, escapes and character references in all three title delimiters, and paragraphs whose continuation lines and words (reflow break points, widths 1-12) are block-marker lookalikes (1. 01. 001) 0. 10. - + * # > === --- fences, HTML, with and without escapes), also inside block quotes and list items. " +
 			"Skipped exactly as the maintainers' fuzz targets do: invalid UTF-8, tabs, FmtCodec.Unsupported() != nil. Oracles: html(fmt(x)) == html(x) (width <= 0: exact; width > 0: modulo whitespace inside <p> and around <br />, input without <p>/</p>); fmt(fmt_w(x)) == fmt_w(x); with width > 0 and no heading/code/HTML block every line wider than the width has no space after its markers or contains '<', a link or a code span. " +
 			"Non-trivial: distinct (input, width) pairs that were decided and whose formatted text differs from the input.",
 		Assumptions: []string{
@@ -346,6 +346,7 @@ func Spec() *mon.Spec {
 			{Name: "corpus", Quick: len(seeds), Thorough: len(seeds), Run: runCorpus, Timeout: 300 * time.Second},
 			{Name: "gen", Quick: 1500, Thorough: 3000, Run: runGen, Timeout: 300 * time.Second},
 			{Name: "mutate", Quick: 1500, Thorough: 3000, Run: runMutate, Timeout: 300 * time.Second},
+			{Name: "targeted", Quick: 1500, Thorough: 3000, Run: runTargeted, Timeout: 300 * time.Second},
 		},
 		Floors: map[string]int{
 			"decided":                   40000,
@@ -361,6 +362,15 @@ func Spec() *mon.Spec {
 			"seen_Link":                 2000,
 			"seen_Emphasis":             2000,
 			"seen_HardLineBreak":        1000,
+			// targeted phase: the escaping decisions must really be reached
+			"title_parsed":                        10000,
+			"title_needs_paren_form_with_parens":  600,
+			"title_paren_form_with_closing_paren": 300,
+			"title_both_quotes":                   1500,
+			"title_with_backslash":                2500,
+			"linestart_escaped_in_output":         8000,
+			"linestart_escaped_in_reflow_output":  7000,
+			"linestart_leading_zero_one":          2000,
 		},
 	}
 }
